@@ -53,7 +53,8 @@ class Stale(Part):
     def describe(self, tier):
         if tier == 'quick':
             return (f'operation sequences over {OPS}: all single perturbations, all (variant, file-op) and (file-op, variant) '
-                    f'pairs, variant pairs, perturbation + construct, edit-construct-revert; each followed by a construction')
+                    f'pairs, variant pairs, perturbation + construct, edit-construct-revert, edit-construct-file fault; each followed by '
+                    f'a construction')
         return f'all operation sequences of depth <= 3 over {OPS} followed by a construction, on a private pycode tree'
 
     def cases(self, tier):
@@ -63,6 +64,7 @@ class Stale(Part):
             out += [[v, f] for v in V for f in F] + [[f, v] for v in V for f in F]
             out += [[a, b] for a in V for b in V if a != b] + [[v, 0] for v in V] + [[f, 0] for f in F]
             out += [[v, 0, 1] for v in V]        # edit, construct, revert, construct
+            out += [[v, 0, f] for v in V for f in F]   # edit, construct (regenerates in this process), file fault, construct
             return out
         d = 3
         out = []
@@ -103,6 +105,20 @@ class Stale(Part):
         seq = [OPS[i] for i in case] + ['C']
 
         def construct(stage):
+            n_before = len(out.violations)
+            try:
+                _construct(stage)
+            finally:
+                # A PQ.py cut in the middle *after this process had imported the complete file*: importlib.reload keeps the
+                # names (and the md5) of the complete module and only re-defines what survives in the first half. That is one
+                # recorded finding (see known_findings.json); whatever symptom it produces gets one signature.
+                prev = [i for i in range(stage) if seq[i] == 'C']
+                if prev and 'X' in seq[prev[-1] + 1:stage]:
+                    for v in out.violations[n_before:]:
+                        v['detail'] = dict(v.get('detail') or {}, symptom=v['sig'])
+                        v['sig'] = 'torn_file_trusted_after_reload'
+
+        def _construct(stage):
             try:
                 ss = andes.System(no_output=True, default_config=True)
             except Exception as e:
